@@ -6,7 +6,7 @@ use crate::output::Format;
 use crate::sass::{Expose, Function, Item, ItemBody, MixinDecl, Name, UseAs};
 use crate::{Error, Invalid};
 use arc_swap::ArcSwapOption;
-use std::collections::BTreeMap;
+use std::collections::{BTreeMap, BTreeSet};
 use std::iter::repeat;
 use std::ops::Deref;
 use std::sync::{Arc, LazyLock, Mutex};
@@ -209,6 +209,9 @@ pub struct Scope {
     /// True for the body of a loop (flow control): assignments there may
     /// update a global variable.
     flow: bool,
+    /// The variables that are configured by `with` for this module, and
+    /// that the module has not (yet) declared with `!default`.
+    config: Mutex<BTreeSet<Name>>,
 }
 
 impl Scope {
@@ -229,6 +232,7 @@ impl Scope {
             format,
             content: None.into(),
             flow: false,
+            config: Default::default(),
         }
     }
     /// Create a scope for a built-in module.
@@ -258,6 +262,7 @@ impl Scope {
             format,
             content: None.into(),
             flow: false,
+            config: Default::default(),
         }
     }
     /// Create a new subscope of a given parent with selectors.
@@ -274,6 +279,7 @@ impl Scope {
             format,
             content: None.into(),
             flow: false,
+            config: Default::default(),
         }
     }
 
@@ -368,10 +374,11 @@ impl Scope {
         } else {
             dbg!("not forwarded");
         }*/
-        if default
-            && !matches!(self.get_or_none(&name), Some(Value::Null) | None)
-        {
-            return Ok(());
+        if default {
+            self.config_used(&name);
+            if !matches!(self.get_or_none(&name), Some(Value::Null) | None) {
+                return Ok(());
+            }
         }
         if global {
             self.define_global(name, val);
@@ -379,6 +386,30 @@ impl Scope {
             self.assign(name, val);
         }
         Ok(())
+    }
+    /// Define a variable that is configured by `with` for this module.
+    ///
+    /// The module is expected to declare the variable with `!default`.
+    pub(crate) fn configure(
+        &self,
+        name: Name,
+        val: Value,
+    ) -> Result<(), ScopeError> {
+        self.config.lock().unwrap().insert(name.clone());
+        self.define(name, val)
+    }
+    /// Note that a configured variable met a `!default` declaration.
+    fn config_used(&self, name: &Name) {
+        if !self.config.lock().unwrap().remove(name)
+            && let Some(parent) = &self.parent
+        {
+            parent.config_used(name);
+        }
+    }
+    /// Get a configured variable that the module did not declare with
+    /// `!default`, if there is one.
+    pub(crate) fn unused_config(&self) -> Option<Name> {
+        self.config.lock().unwrap().first().cloned()
     }
     /// Define a variable in the global scope that is an ultimate
     /// parent of this scope.
